@@ -184,5 +184,22 @@ m("c19-same-type-twice-accepted", "C19", "tangelo/linq/noisy_simulation/noise_mo
 m("c19-noise-without-shots-accepted", "C19", BACK, "        if not self.n_shots and (not self.statevector_available or self._noise_model):", "        if not self.n_shots and (not self.statevector_available):")
 m("c19-noisy-sampling-ignores-noise-for-empty-model-check", "C19", TCIRQ, "        if self._noise_model or (source_circuit.is_mixed_state and not save_mid_circuit_meas):\n            cirq_simulator = self.cirq.DensityMatrixSimulator(dtype=np.complex128)", "        if (self._noise_model and source_circuit.size > 2) or (source_circuit.is_mixed_state and not save_mid_circuit_meas):\n            cirq_simulator = self.cirq.DensityMatrixSimulator(dtype=np.complex128)")
 
+# ---- added with the round-3 extensions ------------------------------------------------------------------------------
+CLIFF = "tangelo/linq/helpers/circuits/clifford_circuits.py"
+m("c09-revert-clifford-two-sided", "C09", GATE, "            return isclose(remainder, 0, abs_tol=abs_tol) or isclose(remainder, pi / 2, abs_tol=abs_tol)", "            return isclose(remainder, 0, abs_tol=abs_tol)")
+m("c09-revert-clifford-signed-distance", "C09", CLIFF, "isclose((gate.parameter - value + pi) % (2 * pi) - pi, 0, abs_tol=abs_tol)), None)", "isclose(gate.parameter % (2 * pi), value % (2 * pi), abs_tol=abs_tol)), None)")
+m("c09-clifford-tolerance-x100", "C09", GATE, "    def is_clifford(self, abs_tol=1e-4):", "    def is_clifford(self, abs_tol=1e-2):")
+m("c19-noisy-save-mid-drops-noise", "C19", TCIRQ, '        elif save_mid_circuit_meas and not return_statevector and self.n_shots is not None and n_cmeas == 0:\n            translated_circuit = translate_c(source_circuit, "cirq", output_options={"noise_model": self._noise_model,',
+  '        elif save_mid_circuit_meas and not return_statevector and self.n_shots is not None and n_cmeas == 0:\n            translated_circuit = translate_c(source_circuit, "cirq", output_options={"noise_model": None,')
+m("c19-noisy-backend-snapshots-gate-names", "C19", TCIRQ, '        if self._noise_model or (source_circuit.is_mixed_state and not save_mid_circuit_meas):\n            cirq_simulator = self.cirq.DensityMatrixSimulator(dtype=np.complex128)',
+  '        if not hasattr(self, "_ng"):\n            self._ng = set(self._noise_model.noisy_gates) if self._noise_model else set()\n        if self._noise_model and not (self._ng & set(source_circuit.counts)) and not source_circuit.is_mixed_state:\n            f0, _ = CirqSimulator(n_shots=self.n_shots).simulate_circuit(source_circuit, initial_statevector=initial_statevector)\n            return f0, None\n        if self._noise_model or (source_circuit.is_mixed_state and not save_mid_circuit_meas):\n            cirq_simulator = self.cirq.DensityMatrixSimulator(dtype=np.complex128)')
+m("c02-exact-desired-collapses-callers-array", "C02", BACK, "    sv_selected = np.reshape(statevector.copy(),", "    sv_selected = np.reshape(statevector,")
+m("c08-number-operator-cached", "C08", AG + "fermionic_operators.py", '    all_terms = number_operator_list(n_orbs, up_then_down)\n    num_op = list_to_fermionoperator(all_terms)\n\n    return normal_ordered(num_op)',
+  '    key = (n_orbs, up_then_down)\n    if key not in _NUM_CACHE:\n        _NUM_CACHE[key] = normal_ordered(list_to_fermionoperator(number_operator_list(n_orbs, up_then_down)))\n    return _NUM_CACHE[key]\n\n\n_NUM_CACHE = dict()')
+m("c20-trotter-state-qubits-support-only", "C20", "tangelo/toolboxes/unitary_generator/trotter_suzuki.py", "        self.state_qubits = list(range(count_qubits(qubit_hamiltonian)))",
+  "        self.state_qubits = sorted({i for t in qubit_hamiltonian.terms for i, _ in t})")
+m("c07-uccgd-params-in-place", "C07", AG + "uccgd.py", "        self.var_params = initial_var_params\n        return initial_var_params",
+  "        if isinstance(self.var_params, np.ndarray) and self.var_params.shape == initial_var_params.shape:\n            self.var_params[:] = initial_var_params\n        else:\n            self.var_params = initial_var_params\n        return self.var_params")
+
 EXPECTED_MISS = {"c07-puccd-mapping-reversed": "build_circuit delegates to update_var_params: single code path, invisible to incremental-vs-fresh"}
 MUTANTS = M
